@@ -39,7 +39,7 @@ pub mod c20 {
         }
     }
 
-    fn ok_handler<I: TransportIdentity>() -> Arc<dyn RequestHandler<I>> {
+    pub(super) fn ok_handler<I: TransportIdentity>() -> Arc<dyn RequestHandler<I>> {
         make_owned_handler(|req, _body| {
             use crate::helpers::routing::RouteId;
             let resp = match req.route {
@@ -61,7 +61,7 @@ pub mod c20 {
         })
     }
 
-    fn body_of(kind: &str) -> (Body, Option<&'static str>) {
+    pub(super) fn body_of(kind: &str) -> (Body, Option<&'static str>) {
         match kind {
             "-" => (Body::empty(), None),
             "json" => (
@@ -69,6 +69,8 @@ pub mod c20 {
                 Some("application/json"),
             ),
             "junk" => (Body::from(vec![0xffu8; 37]), Some("application/octet-stream")),
+            // a well-formed `prepare` body (HelperIdentity deserialises from 1..=3); c20_live only
+            "roles" => (Body::from(r#"{"roles":[1,2,3]}"#), Some("application/json")),
             _ => panic!("harness: unknown body kind {kind}"),
         }
     }
@@ -171,7 +173,7 @@ pub mod c20 {
 
     /// (server, group, method, path template) — read from the translator's output of THIS run, so
     /// that every extracted route is exercised; falls back to the list at the time of writing.
-    fn route_table() -> Vec<(String, String, String, String)> {
+    pub(super) fn route_table() -> Vec<(String, String, String, String)> {
         let fallback = || -> Vec<(String, String, String, String)> {
             [
                 ("mpc", "top", "GET", "/echo"), ("mpc", "top", "GET", "/metrics"),
@@ -200,7 +202,7 @@ pub mod c20 {
             .collect()
     }
 
-    const QS: &str = "?size=1&field_type=fp31&query_type=test-multiply";
+    pub(super) const QS: &str = "?size=1&field_type=fp31&query_type=test-multiply";
 
     pub fn generate(_rng: &mut Rng, _thorough: bool) -> Vec<String> {
         let mut v = Vec::new();
@@ -243,7 +245,7 @@ pub mod c20 {
         // identity derivation
         for flavor in ["helper", "shard"] {
             let good: [&str; 3] = if flavor == "helper" { ["A", "B", "C"] } else { ["0", "1", "2"] };
-            let mut headers = vec!["none", "bad", "", "H1", "-1", "a", "4294967296"];
+            let mut headers = vec!["none", "bad", "", "H1", "-1", "a", "4294967296", "4294967295", "+1", "007", "+", "1_0", "0x1"];
             headers.extend(good);
             for arm in ["tls", "plain"] {
                 for cert in ["none", "0", "1", "2"] {
@@ -443,3 +445,247 @@ fn verif_c09_query() {
     });
 }
 
+
+// ---------------------------------------------------------------------------------------------
+// C20 — live suite (c20_live): REAL servers started through `IpaHttpServer::start_on`, one per
+// case, for each of the four `(disable_https, listener)` arms, and real HTTP/HTTPS requests
+// over a socket (rustls handshake with / without a client certificate).
+//
+// Request grammar
+//   c20.live <mpc|shard> <tls|plain> <pre|self> <group> <METHOD> <path?query> <cert> <hdr> <body>
+//     tls|plain  `ServerConfig::disable_https` = false|true; the client speaks the same protocol
+//     pre|self   start_on(listener = Some(pre-bound 127.0.0.1:0)) | start_on(listener = None) with
+//                `port: None` (the server binds itself; the bound address is read back)
+//     cert       none | 0 | 1 = certificate (and key) of peer 0 / 1 of the server's network |
+//                x = a valid test certificate that is NOT a peer of the server's network
+//     hdr        none | h=<v> (x-unverified-helper-identity: v) | s=<v> (x-unverified-shard-index: v)
+//     body       - | json | junk (as in c20.req) | roles (a well-formed prepare body)
+//   -> 401 | ok (2xx) | other:<status> | conn-err (the request failed below HTTP)
+// Network of the server: mpc = helpers A, B with certificates 0, 1, helper C without certificate;
+// shard = shards 0, 1 with certificates 0, 1. The server's own certificate is certificate 0.
+// ---------------------------------------------------------------------------------------------
+pub mod c20_live {
+    use std::net::TcpListener;
+
+    use axum::body::Body;
+    use hyper::Request;
+    use hyper_rustls::HttpsConnectorBuilder;
+    use hyper_util::{
+        client::legacy::{Client, connect::HttpConnector},
+        rt::{TokioExecutor, TokioTimer},
+    };
+    use rustls::RootCertStore;
+    use rustls_pki_types::{CertificateDer, PrivateKeyDer};
+
+    use super::super::IpaHttpServer;
+    use crate::{
+        config::{NetworkConfig, PeerConfig, ServerConfig},
+        executor::IpaRuntime,
+        helpers::HelperIdentity,
+        ipa_verif::proto::*,
+        net::{
+            CRYPTO_PROVIDER, ConnectionFlavor, Helper, Shard, parse_certificate_and_private_key_bytes,
+            test::{TestServerBuilder, get_test_certificate_and_key},
+        },
+        sharding::{ShardIndex, ShardedHelperIdentity},
+        sync::Arc,
+    };
+
+    /// test certificate i (0..3) with its key, DER
+    fn cert_key(i: usize) -> (Vec<CertificateDer<'static>>, PrivateKeyDer<'static>) {
+        let id = ShardedHelperIdentity::new(HelperIdentity::make_three()[i], ShardIndex::FIRST);
+        let (mut c, mut k) = get_test_certificate_and_key(id);
+        parse_certificate_and_private_key_bytes(&mut c, &mut k).unwrap()
+    }
+
+    fn with_cert(p: &PeerConfig, i: Option<usize>) -> PeerConfig {
+        let mut p = p.clone();
+        p.certificate = i.map(|i| cert_key(i).0.remove(0));
+        p
+    }
+
+    fn client(tls: bool, cert: &str) -> Client<hyper_rustls::HttpsConnector<HttpConnector>, Body> {
+        let mut http = HttpConnector::new();
+        http.enforce_http(false);
+        let connector = if tls {
+            let mut roots = RootCertStore::empty();
+            roots.add(cert_key(0).0.remove(0)).unwrap();
+            let b = rustls::ClientConfig::builder_with_provider(Arc::clone(&CRYPTO_PROVIDER))
+                .with_safe_default_protocol_versions()
+                .unwrap()
+                .with_root_certificates(roots);
+            let cfg = match cert {
+                "none" => b.with_no_client_auth(),
+                "x" => {
+                    let (c, k) = cert_key(2);
+                    b.with_client_auth_cert(c, k).unwrap()
+                }
+                i => {
+                    let (c, k) = cert_key(i.parse().expect("harness: cert token"));
+                    b.with_client_auth_cert(c, k).unwrap()
+                }
+            };
+            HttpsConnectorBuilder::new().with_tls_config(cfg).https_only().enable_http1().enable_http2().wrap_connector(http)
+        } else {
+            assert!(cert == "none", "harness: a plain-HTTP client cannot present a certificate");
+            HttpsConnectorBuilder::new()
+                .with_provider_and_native_roots(CRYPTO_PROVIDER.as_ref().clone())
+                .unwrap()
+                .https_or_http()
+                .enable_http1()
+                .wrap_connector(http)
+        };
+        Client::builder(TokioExecutor::new()).pool_timer(TokioTimer::new()).build(connector)
+    }
+
+    async fn serve_and_ask<F: ConnectionFlavor>(
+        base: IpaHttpServer<F>,
+        network_config: NetworkConfig<F>,
+        t: &[String],
+    ) -> String {
+        let tls = t[2] == "tls";
+        assert_eq!(base.config.disable_https, !tls);
+        let server = IpaHttpServer::<F> {
+            config: ServerConfig { port: None, ..base.config.clone() },
+            network_config,
+            router: base.router.clone(),
+        };
+        let listener = match t[3].as_str() {
+            "pre" => Some(TcpListener::bind("127.0.0.1:0").unwrap()),
+            "self" => None,
+            b => panic!("harness: unknown bind mode {b}"),
+        };
+        let (addr, handle) = server.start_on(&IpaRuntime::current(), listener, ()).await;
+        let uri = if tls {
+            format!("https://localhost:{}{}", addr.port(), t[6])
+        } else {
+            format!("http://127.0.0.1:{}{}", addr.port(), t[6])
+        };
+        let (b, ct) = super::c20::body_of(&t[9]);
+        let mut rb = Request::builder().method(t[5].as_str()).uri(uri);
+        if let Some(ct) = ct {
+            rb = rb.header("content-type", ct);
+        }
+        match t[8].split_once('=') {
+            None => assert!(t[8] == "none", "harness: header token"),
+            Some(("h", v)) => rb = rb.header(Helper::identity_header(), v),
+            Some(("s", v)) => rb = rb.header(Shard::identity_header(), v),
+            Some(_) => panic!("harness: header token"),
+        }
+        let r = client(tls, &t[7]).request(rb.body(b).unwrap()).await;
+        handle.abort();
+        match r {
+            Err(_) => "conn-err".into(),
+            Ok(resp) => match resp.status().as_u16() {
+                401 => "401".into(),
+                200..=299 => "ok".into(),
+                s => format!("other:{s}"),
+            },
+        }
+    }
+
+    async fn run(t: Vec<String>) -> String {
+        let tls = t[2] == "tls";
+        match t[1].as_str() {
+            "mpc" => {
+                let mut b = TestServerBuilder::<Helper>::default().with_request_handler(super::c20::ok_handler());
+                if !tls {
+                    b = b.disable_https();
+                }
+                let ts = b.build().await;
+                let nc = &ts.server.network_config;
+                let certs: [Option<usize>; 3] = if tls { [Some(0), Some(1), None] } else { [None; 3] };
+                let peers = nc.peers.iter().zip(certs).map(|(p, c)| with_cert(p, c)).collect();
+                let network = NetworkConfig::<Helper>::new_mpc(peers, nc.client.clone());
+                serve_and_ask(ts.server, network, &t).await
+            }
+            "shard" => {
+                let mut b = TestServerBuilder::<Shard>::default().with_request_handler(super::c20::ok_handler());
+                if !tls {
+                    b = b.disable_https();
+                }
+                let ts = b.build().await;
+                let nc = &ts.server.network_config;
+                let p0 = &nc.peers[0];
+                let peers = (0..2).map(|i| with_cert(p0, tls.then_some(i))).collect();
+                let network = NetworkConfig::<Shard>::new_shards(peers, nc.client.clone());
+                serve_and_ask(ts.server, network, &t).await
+            }
+            s => panic!("harness: unknown server {s}"),
+        }
+    }
+
+    pub fn exec(req: &str) -> String {
+        let t: Vec<String> = req.split(' ').map(str::to_string).collect();
+        assert!(t[0] == "c20.live" && t.len() == 10, "harness: unknown request {req}");
+        block_on_timeout(30, run(t)).unwrap_or_else(|e| e)
+    }
+
+    /// one well-formed request per extracted route: (server, group, method, path?query, body)
+    fn requests() -> Vec<(String, String, String, String, &'static str)> {
+        super::c20::route_table()
+            .into_iter()
+            .map(|(server, group, method, tpl)| {
+                let mut p = tpl.replace(":query_id", "0").replace("*step", "a");
+                let mut body = "-";
+                if tpl.ends_with("/status-match") {
+                    p.push_str("?status=Running");
+                } else if tpl == "/echo" {
+                    p.push_str("?foo=1");
+                } else if method == "POST" && (tpl == "/query" || tpl == "/query/:query_id") {
+                    p.push_str("?size=1&field_type=Fp31&query_type=test-multiply");
+                    if tpl == "/query/:query_id" {
+                        body = "roles";
+                    }
+                } else if method == "POST" && (tpl.contains("/step/") || tpl.ends_with("/input")) {
+                    body = "junk";
+                }
+                (server, group, method, p, body)
+            })
+            .collect()
+    }
+
+    /// a header value that parses neither as HelperIdentity nor as ShardIndex
+    const BAD: &str = "not-a-valid-identity";
+
+    pub fn generate(_rng: &mut Rng, thorough: bool) -> Vec<String> {
+        let mut v = Vec::new();
+        for (server, group, method, path, body) in requests() {
+            let protected = group == "h2h" || group == "s2s";
+            // identity headers: own flavor (valid peer 0 / peer 1 / malformed), other flavor
+            let (own, other) = if server == "mpc" { ("h", "s") } else { ("s", "h") };
+            let val = |f: &str, k: usize| if f == "h" { ["A", "B", "C"][k] } else { ["0", "1", "2"][k] };
+            let mut hdrs = vec!["none".to_string(), format!("{own}={}", val(own, 1)), format!("{own}={}", val(own, 0)), format!("{own}={BAD}")];
+            hdrs.push(format!("{other}={}", val(other, 1)));
+            if thorough {
+                hdrs.push(format!("{own}={}", val(own, 2)));
+                hdrs.push(format!("{other}={BAD}"));
+                // what the identity parsers accept / refuse at the edges (u32::from_str, "A"|"B"|"C")
+                for e in ["", "+1", "007", "4294967295", "4294967296", "-1", "a", "H1", "+"] {
+                    hdrs.push(format!("{own}={e}"));
+                }
+            }
+            for bind in ["self", "pre"] {
+                for cert in ["none", "1", "0", "x"] {
+                    for h in &hdrs {
+                        // quick tier: the full cert x header grid on the protected routes; on the open
+                        // routes the corners only
+                        if !thorough && !protected && !(cert == "none" || (cert == "1" && (h == "none" || h.ends_with(BAD)))) {
+                            continue;
+                        }
+                        v.push(format!("c20.live {server} tls {bind} {group} {method} {path} {cert} {h} {body}"));
+                    }
+                }
+                for h in &hdrs {
+                    v.push(format!("c20.live {server} plain {bind} {group} {method} {path} none {h} {body}"));
+                }
+            }
+        }
+        v
+    }
+}
+
+#[test]
+fn verif_c20_live() {
+    crate::ipa_verif::proto::run_suite("c20_live", c20_live::generate, c20_live::exec);
+}
